@@ -62,7 +62,7 @@ def parse_harness_file(path):
             elif k == "harness":
                 toks = v.split()
                 d = dict(name=toks[0], props=[], tier="quick", cls="functional", covers=0, mem=8,
-                         timeout=600, required=True, bounds=[], extra=[], est=60, kani_args=[])
+                         timeout=600, required=True, bounds=[], extra=[], est=60, kani_args=[], also=[])
                 for t in toks[1:]:
                     kk, vv = t.split("=", 1)
                     if kk == "props":
@@ -75,6 +75,8 @@ def parse_harness_file(path):
                         d[kk] = int(vv)
                     elif kk == "required":
                         d["required"] = vv not in ("no", "0", "false")
+                    elif kk == "also":
+                        d["also"] = vv.split(",")
                     elif kk == "args":
                         d["kani_args"] = vv.split(",")
                     else:
